@@ -540,6 +540,9 @@ func main() {
 		if len(os.Args) > 2 && os.Args[2] == "seeded" {
 			os.Exit(selftestSeeded(os.Args[3:]))
 		}
+		if len(os.Args) > 2 && os.Args[2] == "passthrough" {
+			os.Exit(selftestPassthrough())
+		}
 		os.Exit(selftest(os.Args[2:]))
 	}
 	id := os.Args[1]
